@@ -164,6 +164,28 @@ impl<'a> Ctx<'a> {
         }
     }
 
+    /// A statement holding a non-canonical integer that the validated constructor let through:
+    /// it differs from the honest statement as data, so verify must not accept it.
+    fn alias_submit(&mut self, field: &str, so: StackOutputs, detail: Value) {
+        let h = self.h;
+        self.rep.eval(&format!("stack-output/new-alias|{field}|{}|{}", OPTION_NAMES[h.oi], self.deep()));
+        self.rep.count("alteration_kind", "stack-output/new-alias");
+        let wit = json!({"kind": "tamper", "case": h.case.to_json(), "option_set": OPTION_NAMES[h.oi], "alteration": "stack-output/new-alias", "field": field, "detail": detail});
+        let proof = match ExecutionProof::from_bytes(&h.proof_bytes) {
+            Ok(p) => p,
+            Err(_) => return,
+        };
+        match pv::verify(h.info.clone(), h.si.clone(), so, proof) {
+            VerifyOutcome::Err(_) => self.rep.count("outcome", "verify-err"),
+            VerifyOutcome::Ok(_) => self.rep.violation(
+                format!("accepted/stack-output/new-alias/{field}"),
+                format!("StackOutputs::new accepted a non-canonical integer (v + p) in {field} and verify accepted the resulting statement"),
+                wit,
+            ),
+            VerifyOutcome::Panic(p) => self.rep.violation(format!("panic/{}", p.site_key()), format!("verify panicked on a constructor-built alias statement: {}", p.message), wit),
+        }
+    }
+
     fn statement(&mut self, rng: &mut Rng8, other_hash: Digest) {
         let h = self.h;
         let pb = &h.proof_bytes;
@@ -257,15 +279,38 @@ impl<'a> Ctx<'a> {
             let mut so = h.so.clone();
             so.stack_mut()[i] = (stack[i] + 1) % P;
             self.submit("stack-output/stack_mut", &format!("{f}+1"), h.info.clone(), h.si.clone(), so, pb, json!(i));
-            // non-canonical alias of the SAME element: equivalent statement
+            // non-canonical alias v + p of the SAME element: through stack_mut() (an unvalidated
+            // test helper) it denotes the same statement as field elements and is only counted;
+            // the VALIDATED constructor must refuse it, so a statement built that way and then
+            // accepted by verify is an alteration that got through
             if stack[i] < (u64::MAX - P) {
                 let mut so = h.so.clone();
                 so.stack_mut()[i] = stack[i] + P;
                 self.rep.count("equivalent", "statement-alias-v+p");
                 let _ = so;
+                let mut s = stack.clone();
+                s[i] = stack[i] + P;
+                match StackOutputs::new(s, addrs.clone()) {
+                    Ok(so) => {
+                        self.rep.count("alias_through_constructor", "constructed");
+                        self.alias_submit(&format!("stack-elem-{}", if i < 16 { "top16" } else { "overflow" }), so, json!(i));
+                    }
+                    Err(_) => self.rep.count("alias_through_constructor", "refused"),
+                }
             }
         }
         for i in 0..addrs.len() {
+            if addrs[i] < (u64::MAX - P) {
+                let mut a = addrs.clone();
+                a[i] = addrs[i] + P;
+                match StackOutputs::new(stack.clone(), a) {
+                    Ok(so) => {
+                        self.rep.count("alias_through_constructor", "constructed");
+                        self.alias_submit("overflow-addr", so, json!(i));
+                    }
+                    Err(_) => self.rep.count("alias_through_constructor", "refused"),
+                }
+            }
             let mut a = addrs.clone();
             a[i] = (a[i] + 1) % P;
             let f = if i == 0 { "overflow-prev-addr" } else { "overflow-addr" };
